@@ -225,6 +225,36 @@ def fcfg_desc(draw, features=True, eps=True):
             p = [nme, hf, [["T", draw(st.sampled_from(terms))]]]
             if p not in prods:
                 prods.append(p)
+    # agreement through empty constituents: a variable that vanishes with either value of a feature, next to
+    # productions that bind the same feature variable in several places
+    if features and eps and draw(st.sampled_from([0, 1])) == 1:
+        cands = [nme for nme in names if sig[nme]]
+        # the vanishing variable is not one that already occurs twice in a body or recursively: such grammars make
+        # the library's chart parser enumerate exponentially many states (they still occur without this bias)
+        calm = [nme for nme in cands
+                if not any(sum(1 for b in body if b[0] == "V" and b[1] == nme) >= 2 or
+                           (h == nme and any(b[0] == "V" and b[1] == nme for b in body)) for h, _hf, body in prods)]
+        if calm:
+            nme = draw(st.sampled_from(calm))
+            f = sig[nme][0]
+            for val in ("u", "v"):
+                p = [nme, {f: val}, []]
+                if p not in prods:
+                    prods.append(p)
+            k = draw(st.sampled_from([2, 3]))
+            body = [["V", draw(st.sampled_from(cands)), None] for _ in range(k)]
+            if draw(st.booleans()):
+                body[-1] = ["V", nme, None]
+            for b in body:
+                b[2] = {sig[b[1]][0]: "?x"}
+            # not recursive through this production: S -> S S S over vanishing constituents makes the library's
+            # chart parser enumerate exponentially many states
+            heads = [h for h in names if all(b[1] != h for b in body)]
+            if heads:
+                head = draw(st.sampled_from(heads))
+                p = [head, ({sig[head][0]: "?x"} if sig[head] and draw(st.booleans()) else {}), body]
+                if p not in prods:
+                    prods.append(p)
     return {"start": "S", "sig": sig, "prods": prods}
 
 
